@@ -277,8 +277,8 @@ Section DelimitedList.
           by (rewrite <- app_assoc; reflexivity).
         apply IH; [exact Hms'|split; assumption].
   Qed.
+
   Lemma ev_delimited full (cp : bool) (x : pstr) (n0 : chr) (ns : pstr) ms r :
-  Lemma ev_delimited full cp x n0 ns ms r :
     (if cp then spre x else x) = n0 :: ns ++ members_text d ms r ->
     memc n0 idch = true -> all_in idch ns -> Forall member_ok ms -> list_stop r ->
     evals G full dl cp (At x)
